@@ -31,10 +31,11 @@ const (
 	FEndless
 	FPanic
 	FWrongCT
+	FLyingCL // announces a huge Content-Length, sends a small body, then the connection drops
 	nFaultKinds
 )
 
-var faultNames = []string{"none", "conn_error", "stall", "status", "redirect", "empty_body", "truncated", "body_error", "body_stall", "garbage", "oversize", "endless", "panic", "wrong_content_type"}
+var faultNames = []string{"none", "conn_error", "stall", "status", "redirect", "empty_body", "truncated", "body_error", "body_stall", "garbage", "oversize", "endless", "panic", "wrong_content_type", "lying_content_length"}
 
 // Fault is an HTTP-level fault plan of one exchange.
 type Fault struct {
@@ -245,7 +246,7 @@ func (n *Net) RoundTrip(req *http.Request) (*http.Response, error) {
 	}
 	// redirect hop?
 	if req.URL.Host == "redirect.sim" {
-		id, _ := url.QueryUnescape(req.URL.Query().Get("k"))
+		id := req.URL.Query().Get("k") // Query() has already unescaped it
 		x := n.redirects[id]
 		if x != nil {
 			x.Rec.Redirected = true
@@ -293,6 +294,9 @@ func (n *Net) RoundTrip(req *http.Request) (*http.Response, error) {
 			code = 302
 		}
 		x.Rec.Status = code
+		// the first hop is over; if the client follows the redirect the second
+		// hop overwrites this record
+		x.Rec.Returned, x.Rec.TReturn, x.Rec.Outcome = true, time.Now(), "redirect"
 		if x.Serve != nil && x.Kind == "ocsp" {
 			// keep the decoded request for the second hop (same goroutine)
 			x.Rec.ReqInfo = decodeOCSPReq(req, reqBody)
@@ -350,6 +354,8 @@ func (n *Net) respond(x *Exchange, req *http.Request, reqBody []byte, f Fault) (
 		b.synthetic = -1
 	case FWrongCT:
 		hdr.Set("Content-Type", "text/html")
+	case FLyingCL:
+		b.failAtEnd = true
 	}
 	switch {
 	case b.synthetic < 0:
@@ -364,7 +370,10 @@ func (n *Net) respond(x *Exchange, req *http.Request, reqBody []byte, f Fault) (
 	// half of the servers announce the body length (decided from static
 	// properties of the slot), the others stream; endless bodies never do
 	cl := int64(-1)
-	if x.Rec.BodyLen >= 0 && (x.CertPos+x.SrcIdx+x.Attempt+len(x.Kind))%2 == 0 {
+	if f.Kind == FLyingCL {
+		cl = 40 << 20
+		hdr.Set("Content-Length", fmt.Sprint(cl))
+	} else if x.Rec.BodyLen >= 0 && (x.CertPos+x.SrcIdx+x.Attempt+len(x.Kind))%2 == 0 {
 		cl = x.Rec.BodyLen
 		hdr.Set("Content-Length", fmt.Sprint(cl))
 	}
